@@ -40,8 +40,10 @@ Section HashMap.
   Local Notation bucket := (list (K * V)) (only parsing).
   Record hmap : Type := mkHM { hm_arr : list bucket; hm_cap : N; hm_total : nat }.
 
-  (** NewHashMap(size, loadfactor): make([]Bucket, size) *)
-  Definition new_hashmap (size : N) : hmap := mkHM (repeat [] (N.to_nat size)) size 0.
+  (** NewHashMap(size, loadfactor): if size == 0 { size = 1 }; make([]Bucket, size) *)
+  Definition new_hashmap (size : N) : hmap :=
+    let size := if N.eqb size 0 then 1%N else size in
+    mkHM (repeat [] (N.to_nat size)) size 0.
 
   Definition slot_of (m : hmap) (k : K) : N := index_for (hash k) (hm_cap m).
 
